@@ -436,7 +436,7 @@ pub fn run(rep: &Report) {
             other => fail("HARNESS/C06: fixed expression not well-formed", "well-formed", format!("{:?}", other), src_case("expression", src), 0),
         }
     });
-    let n = rep.tier.pick(600_000u64, 10_000_000);
+    let n = rep.tier.pick(600_000u64, 40_000_000);
     common::random_search(rep, "random", 60, n, &arb_case, &|c: &Case, l| {
         l.sample(4, || match c {
             Case::Str(s) => json!({"string": quote(&s.text)}),
